@@ -94,9 +94,18 @@ Definition canonical_headers (hs : list (bytes * bytes)) : bytes :=
 Definition signed_headers (hs : list (bytes * bytes)) : bytes :=
   join (b ";") (map fst (canon_headers hs)).
 
+(* CanonicalURI: "the URI-encoded version of the absolute path component of the URI ...  If the
+   absolute path is empty, use a forward slash (/)."  (S3 rule: the path is encoded once and not
+   normalised; '/' is kept.) *)
+Definition canonical_uri (path : bytes) : bytes :=
+  match path with
+  | [] => b "/"
+  | _ :: _ => uri_encode false path
+  end.
+
 Definition canonical_request (r : request) : bytes :=
   rq_method r ++ [10] ++
-  uri_encode false (rq_path r) ++ [10] ++
+  canonical_uri (rq_path r) ++ [10] ++
   canonical_query (rq_query r) ++ [10] ++
   canonical_headers (rq_headers r) ++ [10] ++
   signed_headers (rq_headers r) ++ [10] ++
